@@ -36,11 +36,28 @@ const (
 	allowedExtCSVGZ = ".csv.gz"
 )
 
+// isSafeLookupName reports whether name is a plain file name that stays inside
+// the lookups directory: no path separators, no "." / ".." and not empty.
+func isSafeLookupName(name string) bool {
+	if name == "" || name == "." || name == ".." {
+		return false
+	}
+	if strings.ContainsAny(name, "/\\") {
+		return false
+	}
+	return filepath.Base(name) == name
+}
+
 func UploadLookupFile(ctx *fasthttp.RequestCtx) {
 	fileName := string(ctx.FormValue("name"))
 	if fileName == "" {
 		log.Error("UploadLookupFile: File name is required")
 		ctx.Error("File name is required", fasthttp.StatusBadRequest)
+		return
+	}
+	if !isSafeLookupName(fileName) {
+		log.Errorf("UploadLookupFile: Invalid file name: %q", fileName)
+		ctx.Error("Invalid file name", fasthttp.StatusBadRequest)
 		return
 	}
 
@@ -167,6 +184,10 @@ func GetAllLookupFiles(ctx *fasthttp.RequestCtx) {
 
 func GetLookupFile(ctx *fasthttp.RequestCtx) {
 	lookupFilename := utils.ExtractParamAsString(ctx.UserValue("lookupFilename"))
+	if !isSafeLookupName(lookupFilename) {
+		ctx.Error("Invalid file name", fasthttp.StatusBadRequest)
+		return
+	}
 
 	lookupsDir := config.GetLookupPath()
 	filePath := filepath.Join(lookupsDir, lookupFilename)
@@ -195,6 +216,10 @@ func GetLookupFile(ctx *fasthttp.RequestCtx) {
 
 func DeleteLookupFile(ctx *fasthttp.RequestCtx) {
 	lookupFilename := utils.ExtractParamAsString(ctx.UserValue("lookupFilename"))
+	if !isSafeLookupName(lookupFilename) {
+		ctx.Error("Invalid file name", fasthttp.StatusBadRequest)
+		return
+	}
 
 	lookupsDir := config.GetLookupPath()
 	filePath := filepath.Join(lookupsDir, lookupFilename)
